@@ -29,7 +29,7 @@ ANCHOR_FILES = ["src/ropt/ensemble_evaluator/_ensemble_evaluator.py", "src/ropt/
 RULE = ("case = one configuration; non-trivial if the run made at least one gradient (perturbation) request or is a population run; distinct key = case index; "
         "monitor_counters: traces compared, evaluator calls hashed")
 ASSUMPTIONS = ["differential_evolution is only required to be reproducible when given an explicit 'seed' option (as the statement says)"]
-REQUIRED = {"quick": {"trace_pairs_compared": 295, "evaluator_calls_hashed": 2515, "foreign_runs_interleaved": 144, "seed_sensitivity_checked": 30, "fresh_process_runs": 6, "__nontrivial__": 63},
+REQUIRED = {"quick": {"trace_pairs_compared": 295, "evaluator_calls_hashed": 2515, "foreign_runs_interleaved": 144, "seed_sensitivity_checked": 30, "fresh_process_runs": 6, "first_drawing_sampler_without_variables": 5, "__nontrivial__": 63},
             "thorough": {"trace_pairs_compared": 6075, "evaluator_calls_hashed": 57264, "foreign_runs_interleaved": 3000, "seed_sensitivity_checked": 700, "fresh_process_runs": 75, "__nontrivial__": 1245}}
 N = {"quick": 120, "thorough": 2500}
 SAMPLERS = ["norm", "uniform", "truncnorm", "sobol", "halton", "lhs"]
@@ -63,6 +63,14 @@ def gen_spec(rng):
         m = rng.random(V) < 0.6
         m[int(rng.integers(V))] = True
         spec["mask"] = m.tolist()
+    if V > 1 and rng.random() < 0.15:
+        # several samplers, the one that draws first has all its variables masked out
+        if len(spec["samplers"]) < 2:
+            spec["samplers"].append({"method": str(rng.choice(SAMPLERS)), "shared": bool(rng.random() < 0.4)})
+        k = int(rng.integers(1, V))
+        spec["smap"] = [0] * k + [1] * (V - k)
+        spec["mask"] = [False] * k + [True] * (V - k)
+        spec["_first_sampler_empty"] = True
     if rng.random() < 0.3:
         spec["filters"] = [{"method": "cvar-objective", "options": {"sort": [0], "percentile": 0.6}}]
         spec["omap_f"] = [0] + [-1] * (n_obj - 1)
@@ -152,6 +160,8 @@ def run_case(case, obs):
     obs.feature("method." + spec["optimizer"]["method"])
     for s in spec["samplers"]:
         obs.feature("sampler." + s["method"])
+    if spec.get("_first_sampler_empty"):
+        obs.count("first_drawing_sampler_without_variables")
     # B: global generators reseeded between and inside evaluator calls
     B = run_trace(spec, reseed=True)
     obs.count("trace_pairs_compared")
